@@ -258,6 +258,8 @@ def gen_c15_spec(rng: random.Random, minutes_max: int) -> Dict[str, Any]:
         spec["skip_first_run"] = rng.random() < 0.5
     if rng.random() < 0.3:
         spec["sleep_overshoot"] = rng.choice([0.01, 0.05, 0.2, 0.3])
+    if rng.random() < 0.12:
+        spec["twin_scheduler"] = True
     if rng.random() < 0.2:
         # schedules created at run time through schedule_by_time / schedule_by_cron of one kicker object
         for src_ in sources:
@@ -359,6 +361,16 @@ def run_c15(spec: Dict[str, Any]) -> "tuple[Rec, Dict[str, Any]]":
                 if it.get("remove_at") is not None:
                     loop.call_at(it["remove_at"], _remove)
         scheduler = TaskiqScheduler(broker, sources)  # type: ignore[arg-type]
+        t_twin: Any = None
+        if spec.get("twin_scheduler"):
+            # another scheduler (its own broker, its own source with an every-minute schedule) runs its loop in the same
+            # process, and gets to tick first: this scheduler's schedules are due as if it were alone
+            class _TwinSource(ScheduleSource):
+                async def get_schedules(self) -> List[ScheduledTask]:
+                    return [ScheduledTask(task_name="twin", labels={}, args=[], kwargs={}, schedule_id="twin-every-minute", cron="* * * * *")]
+
+            t_twin = asyncio.ensure_future(run_mod.run_scheduler_loop(TaskiqScheduler(PlainBroker(), [_TwinSource()])))
+            info["twin"] = t_twin
         if spec.get("via_api"):
             from taskiq.api import run_scheduler_task  # the programmatic entry point
 
@@ -374,6 +386,8 @@ def run_c15(spec: Dict[str, Any]) -> "tuple[Rec, Dict[str, Any]]":
             t = asyncio.ensure_future(run_mod.run_scheduler_loop(scheduler))
         done, _ = await asyncio.wait({t}, timeout=spec["minutes"] * 60 + 0.75)
         rec.add("end")
+        if t_twin is not None:
+            t_twin.cancel()
         if done:
             info["loop_exc"] = repr(t.exception()) if not t.cancelled() else "cancelled"
         else:
@@ -821,7 +835,7 @@ def gen_c16a(rng: random.Random) -> Dict[str, Any]:
                        gen_json_tree(rng) for i in range(rng.randint(0, 3))},
             # the broker refuses the message (outage): nothing was sent, so the source is not told it was
             "kick_fail": rng.random() < 0.1,
-            "labels": labels, "cancel": rng.random() < 0.3, "pre_async": rng.random() < 0.5, "overlap": rng.random() < 0.1,
+            "labels": labels, "cancel": rng.random() < 0.3, "pre_async": rng.random() < 0.5, "overlap": rng.choice([True, "copy"]) if rng.random() < 0.15 else False,
             "post_async": rng.random() < 0.5, "kind": rng.choice(["cron", "time"]),
             "inst_hooks": rng.random() < 0.2, "delegate": rng.random() < 0.2,
             # the scheduled task name may be a registered task with declared labels (own broker), or a shared task
@@ -872,6 +886,11 @@ def run_c16a(spec: Dict[str, Any]) -> "tuple[List[Violation], Any]":
         if overlap:
             # the same schedule fires again while its previous firing is still being sent (slow hooks / a slow broker):
             # two firings, two messages
+            if spec.get("overlap") == "copy":
+                # ... or two schedules made from one template (model_copy is shallow: they share the labels dict)
+                task_b = task.model_copy(update={"schedule_id": spec["sid"] + "-b"})
+                await asyncio.gather(sch.on_ready(src, task), sch.on_ready(src, task_b))
+                return
             await asyncio.gather(sch.on_ready(src, task), sch.on_ready(src, task))
             return
         await sch.on_ready(src, task)
@@ -903,6 +922,15 @@ def run_c16a(spec: Dict[str, Any]) -> "tuple[List[Violation], Any]":
     if other.sent:
         v.append(Violation("sent-to-wrong-broker", f"{len(other.sent)} message(s) went to a broker other than the scheduler's"))
     sid = spec["sid"]
+    if overlap and spec.get("overlap") == "copy":
+        ids = []
+        for bm_ in broker.sent:
+            m_ = broker.formatter.loads(bm_.message)
+            m_.parse_labels()
+            ids.append(m_.labels.get("schedule_id"))
+        if sorted(map(str, ids)) != sorted([sid, sid + "-b"]):
+            v.append(Violation("payload-schedule-id", f"two schedules ({sid}, {sid}-b) fired together: the messages carry schedule_id {ids}"))
+        return v, rec
     if overlap:
         if sorted(rec) != sorted([("pre_send", sid), ("kick", sid), ("post_send", sid)] * 2) or len(broker.sent) != 2:
             v.append(Violation("callback-sequence", f"two overlapping firings of one schedule: observed {rec} and {len(broker.sent)} message(s), "
@@ -1029,6 +1057,7 @@ def gen_c16b(rng: random.Random) -> Dict[str, Any]:
     return {"mode": "label_source", "tasks": tasks, "fire_seed": rng.randint(0, 10 ** 9), "nfire": nfire,
             "src_startup": rng.random() < 0.5, "late_task": late, "concurrent_list": rng.random() < 0.3,
             "same_func": rng.random() < 0.2,
+            "redeclare": (S.to_us(datetime(2031, 3, 1, 12, 0)) + rng.randint(0, 10 ** 9)) if rng.random() < 0.25 else None,
             # relist: list again before every firing; otherwise fire several schedules of one listing (what the
             # scheduler loop does when several one-shots are due in the same poll)
             "relist": rng.random() < 0.5,
@@ -1138,6 +1167,21 @@ def run_c16b(spec: Dict[str, Any]) -> "tuple[List[Violation], Any]":
                         registered_global.append(lt["name"])
                     declared[lt["name"]] = sched_l
                     task_labels[lt["name"]] = {}
+                if step >= 1 and spec.get("redeclare") and obs["fired"] and not obs.get("redeclared") and spec.get("relist", True):
+                    # a task whose one-shot has fired is declared again under the same name (a module re-imported, a task
+                    # re-registered at run time) with a new one-shot: listing and removal follow the current declaration
+                    nm = obs["fired"][-1][0]
+                    if nm in declared and nm not in registered_global:
+                        fn_r = lambda: None  # noqa: E731
+                        fn_r.__name__ = nm
+                        fn_r.__module__ = "mon.sched_loop"
+                        sched_r = [{"time": S.mk_time(spec["redeclare"], None), "args": [77]}, {"cron": "5 4 * * *"}]
+                        tgt = shared if spec.get("source_on") == "shared" else broker
+                        if tgt is broker:
+                            tgt.register_task(fn_r, task_name=nm, schedule=sched_r)
+                            declared[nm] = sched_r
+                            task_labels[nm] = {}
+                            obs["redeclared"] = nm
                 if spec.get("relist", True) or step == 0 or not pending_batch:
                     listed = await src.get_schedules()
                 else:
